@@ -86,6 +86,10 @@ def siblings(cfg):
         opts.append(("storage", "RAM" if c0["storage"] == "DISK" else "DISK"))
     if "move" in c0:
         opts.append(("move", not c0["move"]))
+    if c0["cls"] in ("Revolve", "DiskRevolve", "PeriodicDiskRevolve"):
+        for other in ("Revolve", "DiskRevolve", "PeriodicDiskRevolve"):
+            if other != c0["cls"]:
+                opts.append(("cls", other))      # equal parameters, sibling class with the same signature
     for k, lo in (("s", 1), ("d", 0), ("ram", 0), ("disk", 0), ("b", 0), ("period", 1)):
         if k in c0:
             opts.append((k, c0[k] + 1))
@@ -146,8 +150,8 @@ class World:
         if not self.objs:
             return
         opts = siblings(self.objs[sel % len(self.objs)][0])
-        cat = [o for o in opts if o[0] in ("traj", "storage", "move")]
-        num = [o for o in opts if o[0] not in ("traj", "storage", "move")]
+        cat = [o for o in opts if o[0] in ("traj", "storage", "move", "cls")]
+        num = [o for o in opts if o[0] not in ("traj", "storage", "move", "cls")]
         if field % 2 == 0 and cat:       # half of the siblings differ in a categorical parameter only
             c = cat[(field // 2) % len(cat)][1]
         elif num:
